@@ -401,8 +401,8 @@ pub fn show(c: &Case) -> serde_json::Value {
 
 fn stages(tier: Tier) -> Vec<Box<dyn Stage>> {
     vec![
-        gen_stage_show("map", RULE, tier.pick(1600, 24_000), 250, case_strategy, check, show),
-        gen_stage_show("alnwriter", "generated: AlnWriter alone (in-process) on 1-3 contigs with an increasing list of (contig, position, symbol) matches incl. ambiguity codes, arbitrary repeat coordinates and the ambiguity mask; output == union-of-windows model. Non-trivial: >=2 matches.", tier.pick(20_000, 400_000), 1500, writer_strategy, check_writer, |c| json!({"k": c.k, "contig_lengths": c.contigs.iter().map(|x| x.len()).collect::<Vec<_>>(), "matches": c.matches.len(), "repeats": c.repeats.len()})),
+        gen_stage_show("map", RULE, tier.pick(4000, 48_000), 250, case_strategy, check, show),
+        gen_stage_show("alnwriter", "generated: AlnWriter alone (in-process) on 1-3 contigs with an increasing list of (contig, position, symbol) matches incl. ambiguity codes, arbitrary repeat coordinates and the ambiguity mask; output == union-of-windows model. Non-trivial: >=2 matches.", tier.pick(40_000, 800_000), 1500, writer_strategy, check_writer, |c| json!({"k": c.k, "contig_lengths": c.contigs.iter().map(|x| x.len()).collect::<Vec<_>>(), "matches": c.matches.len(), "repeats": c.repeats.len()})),
     ]
 }
 
